@@ -53,6 +53,8 @@ type c15Rec struct {
 
 type c15TokenKey struct{}
 
+type c15TrailKey struct{}
+
 func c15Nonce(req *mcp.JSONRPCRequest) string {
 	if req.Method != "tools/call" {
 		return ""
@@ -99,10 +101,26 @@ func c15MW(i int, b string, rec *c15Rec, want map[string]string) mcp.Middleware 
 			case "fail":
 				return nil, fmt.Errorf("mw-fail-%d-%s", i, nonce)
 			case "modReq":
+				// the middleware hands a NEW request (a copy with its mark in the arguments) and a DERIVED context to next:
+				// what the next layer and the handler see is what was passed to next, not the original
 				p, _ := req.Params.(map[string]interface{})
+				np := map[string]interface{}{}
+				for k, v := range p {
+					np[k] = v
+				}
 				a, _ := p["arguments"].(map[string]interface{})
-				t, _ := a["trail"].(string)
-				a["trail"] = t + fmt.Sprintf("q%d", i)
+				na := map[string]interface{}{}
+				for k, v := range a {
+					na[k] = v
+				}
+				t, _ := na["trail"].(string)
+				na["trail"] = t + fmt.Sprintf("q%d", i)
+				np["arguments"] = na
+				nreq := *req
+				nreq.Params = np
+				req = &nreq
+				ct, _ := ctx.Value(c15TrailKey{}).(string)
+				ctx = context.WithValue(ctx, c15TrailKey{}, ct+fmt.Sprintf("q%d", i))
 			}
 			res, err := next(ctx, req)
 			rec.add(nonce, fmt.Sprintf("a%d", i), ctx, want)
@@ -133,6 +151,11 @@ func c15Run(sc c15Scenario) (res c15Result) {
 		}
 		wmu.Unlock()
 		rec.add(n, "H", ctx, w)
+		if ct, _ := ctx.Value(c15TrailKey{}).(string); ct != t {
+			rec.mu.Lock()
+			rec.ctxBad[n] = fmt.Sprintf("the handler's context carries the middleware marks %q, its arguments %q", ct, t)
+			rec.mu.Unlock()
+		}
 		if cs := mcp.ClientSessionFromContext(ctx); cs != nil && w[n] != "" && cs.GetID() != w[n] {
 			rec.mu.Lock()
 			rec.ctxBad[n] = fmt.Sprintf("handler was given client session %q, want %q", cs.GetID(), w[n])
@@ -214,6 +237,12 @@ func c15Run(sc c15Scenario) (res c15Result) {
 				}
 			}
 		}
+		// requests of other methods travel through the chain as well
+		peer.PostJSON(ctx, msg, nil, []byte(`{"jsonrpc":"2.0","id":"plain-ping","method":"ping"}`), false)
+		peer.PostJSON(ctx, msg, nil, []byte(`{"jsonrpc":"2.0","id":"plain-list","method":"resources/list"}`), false)
+		st.WaitFor(time.Second, func(raw []byte, eof bool) bool {
+			return strings.Contains(string(raw), `"plain-ping"`) && strings.Contains(string(raw), `"plain-list"`)
+		})
 		time.Sleep(5 * time.Millisecond)
 	} else {
 		opts := []mcp.ServerOption{mcp.WithServerPath("/mcp"), mcp.WithServerLogger(silentLogger{}), mcp.WithHTTPContextFunc(ctxFunc),
@@ -283,6 +312,9 @@ func c15Run(sc c15Scenario) (res c15Result) {
 		wg.Wait()
 		// a notification must not travel through the chain
 		peer.PostJSON(ctx, url, map[string]string{"Mcp-Session-Id": sid0}, []byte(`{"jsonrpc":"2.0","method":"notifications/roots/list_changed"}`), false)
+		// requests of other methods travel through the chain as well
+		peer.PostJSON(ctx, url, map[string]string{"Mcp-Session-Id": sid0}, []byte(`{"jsonrpc":"2.0","id":"plain-ping","method":"ping"}`), false)
+		peer.PostJSON(ctx, url, map[string]string{"Mcp-Session-Id": sid0}, []byte(`{"jsonrpc":"2.0","id":"plain-list","method":"resources/list"}`), false)
 	}
 	rec.mu.Lock()
 	defer rec.mu.Unlock()
